@@ -8,7 +8,7 @@ import (
 	"github.com/google/martian/v3/zzverif/vf"
 )
 
-func be32(b []byte) uint32 {
+func zzbe32(b []byte) uint32 {
 	return uint32(b[0])<<24 | uint32(b[1])<<16 | uint32(b[2])<<8 | uint32(b[3])
 }
 
@@ -34,11 +34,11 @@ func VerifC19ReaderRobust() {
 		isData = FrameType(in[0]) == DataFrame
 	}
 	if isHeader && n >= 18 {
-		nl, vl = be32(in[10:14]), be32(in[14:18])
+		nl, vl = zzbe32(in[10:14]), zzbe32(in[14:18])
 		vf.Assume(nl+vl <= uint32(k))
 	}
 	if isData && n >= 19 {
-		dl = be32(in[15:19])
+		dl = zzbe32(in[15:19])
 		vf.Assume(dl <= uint32(k))
 	}
 
@@ -75,7 +75,7 @@ func VerifC19ReaderRobust() {
 			vf.Assert(ok, "data-type")
 			vf.Assert(d.ID == string(in[2:10]), "data-id")
 			vf.Assert(uint8(d.MessageType) == in[1], "data-msgtype")
-			vf.Assert(d.Index == be32(in[10:14]), "data-index")
+			vf.Assert(d.Index == zzbe32(in[10:14]), "data-index")
 			vf.Assert(d.Terminal == (in[14] == 1), "data-terminal")
 			vf.Assert(bytes.Equal(d.Data, in[19:19+dl]), "data-bytes")
 			vf.Reach("data-ok")
